@@ -7,9 +7,10 @@ import os
 from typing import Dict, List, Optional, Set, Tuple
 
 from ..cfg import CFG, Flow, Node, build_cfg
-from ..core import (VERIF_ROOT, AnalysisError, FuncInfo, Index, Result, call_name, call_recv, const_str,
+from ..core import (seq, VERIF_ROOT, AnalysisError, FuncInfo, Index, Result, call_name, call_recv, const_str,
                     dotted, iter_calls, norm_stmt, src, walk_no_nested)
-from ..util import const_int, params, single_assignments
+from ..util import const_int, is_row, params, row_aliases, single_assignments
+from ..util import deref as _deref
 
 MODEL = "BPTK_Py/modeling/model.py"
 SCHED = "BPTK_Py/modeling/scheduler.py"
@@ -171,6 +172,11 @@ def _fixture_self_check(res: Result) -> None:
 # C14
 # ---------------------------------------------------------------------------
 
+def _nseq(node) -> int:
+    """view-order position of a CFG node (0 for synthetic nodes)"""
+    return seq(node.ast) if node.ast is not None else 0
+
+
 def id_source_rules(idx: Index, res: Result, rule: str = "MONO") -> FuncInfo:
     """Shared by C14 and C11: agent ids are unique for the life of the model - next_agent_id is initialised once, only ever grows by one,
     is handed to the factory and incremented exactly once before the agent is appended.  Routing events by id relies on it."""
@@ -199,8 +205,9 @@ def id_source_rules(idx: Index, res: Result, rule: str = "MONO") -> FuncInfo:
                       key="%s/%s/%s" % (rule, fi.qual, norm_stmt(node)))
     # create_agent: factory gets next_agent_id, then exactly one increment on every path to the append
     create = idx.func(MODEL, "Model.create_agent")
-    fac = [c for c in iter_calls(create.node) if isinstance(c.func, ast.Subscript) and (dotted(c.func.value) or "").endswith("agent_factories")]
-    ok = bool(fac) and all(c.args and dotted(c.args[0]) == "self.next_agent_id" for c in fac)
+    fac = [c for c in iter_calls(create.node) if isinstance(_deref(create.node, c.func), ast.Subscript)
+           and (dotted(_deref(create.node, c.func).value) or "").endswith("agent_factories")]
+    ok = bool(fac) and all(c.args and dotted(_deref(create.node, c.args[0])) == "self.next_agent_id" for c in fac)
     res.check(rule, "create_agent hands next_agent_id to the factory", ok, create.loc(), create.qual,
               src(fac[0]) if fac else "", "the factory is not called with self.next_agent_id as the new agent's id",
               key=rule + "/Model.create_agent/factory-arg")
@@ -259,8 +266,7 @@ def check_c14(idx: Index, tier: str, res: Result) -> None:
                 r = node.func.value if isinstance(node.func, ast.Attribute) else None
                 if r is not None and dotted(r) == "self.agents":
                     w_agents = True
-                if r is not None and (dotted(r) == "self.agent_type_map" or (
-                        isinstance(r, ast.Subscript) and dotted(r.value) == "self.agent_type_map")):
+                if r is not None and (dotted(r) == "self.agent_type_map" or is_row(row_aliases(fi.node, "self.agent_type_map"), r, "self.agent_type_map")):
                     w_map = True
         if w_agents:
             nwriters += 1
@@ -275,12 +281,26 @@ def check_c14(idx: Index, tier: str, res: Result) -> None:
 
     def fresh_list(e: ast.AST) -> bool:
         return isinstance(e, (ast.List, ast.ListComp)) or (isinstance(e, ast.Call) and call_name(e) in ("list", "sorted", "copy", "deepcopy"))
+
+    def innermost_loop(fn: ast.AST, target: ast.AST):
+        best = None
+        for lp in ast.walk(fn):
+            if isinstance(lp, (ast.For, ast.While)) and any(x is target for x in ast.walk(lp)):
+                if best is None or any(x is lp for x in ast.walk(best)):
+                    best = lp
+        return best
     for fi in idx.all_funcs("BPTK_Py/modeling/"):
         for node in walk_no_nested(fi.node):
             if not isinstance(node, ast.Assign):
                 continue
             for t in node.targets:
                 v = node.value
+                if isinstance(v, ast.Name):
+                    # a named list: fresh if it is created (once) in the same loop iteration that installs it
+                    defs = [a for a in walk_no_nested(fi.node) if isinstance(a, ast.Assign) and len(a.targets) == 1 and isinstance(a.targets[0], ast.Name)
+                            and a.targets[0].id == v.id]
+                    if len(defs) == 1 and fresh_list(defs[0].value) and innermost_loop(fi.node, defs[0]) is innermost_loop(fi.node, node):
+                        v = defs[0].value
                 if isinstance(t, ast.Subscript) and (dotted(t.value) or "").endswith(".agent_type_map"):
                     nown += 1
                     res.check("COUPDATE", "%s installs a fresh id list per type" % fi.qual, fresh_list(v), fi.loc(node), fi.qual, norm_stmt(node),
@@ -299,9 +319,12 @@ def check_c14(idx: Index, tier: str, res: Result) -> None:
                               key="COUPDATE/%s/shared-id-list" % fi.qual)
     res.floor("id-list installations in agent_type_map", nown, 6)
     # create_agent appends agent.id under the factory key
-    app = [c for c in iter_calls(create.node) if call_name(c) == "append" and isinstance(c.func.value, ast.Subscript)
-           and dotted(c.func.value.value) == "self.agent_type_map"]
-    ok = bool(app) and all(isinstance(c.args[0], ast.Attribute) and c.args[0].attr == "id" and src(c.func.value.slice) == "agent_type" for c in app)
+    app = [c for c in iter_calls(create.node) if call_name(c) == "append" and is_row(row_aliases(create.node, "self.agent_type_map"), c.func.value, "self.agent_type_map")]
+
+    def row_key(e):
+        e = _deref(create.node, e)
+        return src(e.slice) if isinstance(e, ast.Subscript) else None
+    ok = bool(app) and all(isinstance(c.args[0], ast.Attribute) and c.args[0].attr == "id" and row_key(c.func.value) == "agent_type" for c in app)
     res.check("COUPDATE", "create_agent records agent.id under its type", ok, create.loc(), create.qual,
               src(app[0]) if app else "", "create_agent does not append the new agent's id to agent_type_map[agent_type]",
               key="COUPDATE/Model.create_agent/append")
@@ -312,18 +335,32 @@ def check_c14(idx: Index, tier: str, res: Result) -> None:
     res.check("QUERY", "delete_agents filters by agent.id membership", bool(tests), dele.loc(), dele.qual,
               src(tests[0]) if tests else "", "delete_agents does not select agents by id membership",
               key="QUERY/Model.delete_agents/filter")
-    rebuild = [c for c in iter_calls(dele.node) if call_name(c) == "append" and isinstance(c.func.value, ast.Subscript)
-               and dotted(c.func.value.value) == "self.agent_type_map"]
-    ok = bool(rebuild) and all(isinstance(c.args[0], ast.Attribute) and c.args[0].attr == "id" for c in rebuild)
+    installs = [n for n in walk_no_nested(dele.node) if isinstance(n, ast.Assign) and isinstance(n.targets[0], ast.Subscript)
+                and dotted(n.targets[0].value) == "self.agent_type_map"]
+    installed_names = {n.value.id for n in installs if isinstance(n.value, ast.Name)}
+    rebuild = [c for c in iter_calls(dele.node) if call_name(c) == "append" and (
+        (isinstance(c.func.value, ast.Subscript) and dotted(c.func.value.value) == "self.agent_type_map") or
+        (isinstance(c.func.value, ast.Name) and c.func.value.id in installed_names))]
+    comps = [n.value for n in installs if isinstance(n.value, ast.ListComp)]
+    ok = (bool(rebuild) or bool(comps)) and all(isinstance(c.args[0], ast.Attribute) and c.args[0].attr == "id" for c in rebuild) \
+        and all(isinstance(c.elt, ast.Attribute) and c.elt.attr == "id" for c in comps)
     res.check("QUERY", "delete_agents rebuilds the id lists from agent.id", ok, dele.loc(), dele.qual,
-              src(rebuild[0]) if rebuild else "", "delete_agents does not rebuild the per-type id lists from the surviving agents' ids",
+              src(rebuild[0]) if rebuild else (src(comps[0])[:80] if comps else ""), "delete_agents does not rebuild the per-type id lists from the surviving agents' ids",
               key="QUERY/Model.delete_agents/rebuild")
     # agent(): compares ids, None when absent
     ag = idx.func(MODEL, "Model.agent")
     cmp_ = [n for n in walk_no_nested(ag.node) if isinstance(n, ast.Compare) and len(n.ops) == 1 and isinstance(n.ops[0], ast.Eq)
             and {src(n.left), src(n.comparators[0])} == {"agent.id", "agent_id"}]
+    cmp_ = [n for n in ast.walk(ag.node) if isinstance(n, ast.Compare) and len(n.ops) == 1 and isinstance(n.ops[0], ast.Eq)
+            and {src(n.left), src(n.comparators[0])} == {"agent.id", "agent_id"}]
     last = ag.node.body[-1]
-    ok = bool(cmp_) and isinstance(last, ast.Return) and (last.value is None or (isinstance(last.value, ast.Constant) and last.value.value is None))
+    lastv = _deref(ag.node, last.value) if isinstance(last, ast.Return) and last.value is not None else None
+    none_when_absent = isinstance(last, ast.Return) and (last.value is None or (isinstance(last.value, ast.Constant) and last.value.value is None))
+    # next((a for a in self.agents if a.id == agent_id), None)
+    if isinstance(lastv, ast.Call) and call_name(lastv) == "next" and len(lastv.args) == 2 and isinstance(lastv.args[1], ast.Constant) and lastv.args[1].value is None:
+        gen = _deref(ag.node, lastv.args[0])
+        none_when_absent = isinstance(gen, ast.GeneratorExp) and "agents" in src(gen.generators[0].iter)
+    ok = bool(cmp_) and none_when_absent
     res.check("QUERY", "agent(id) compares ids and returns None when absent", ok, ag.loc(), ag.qual, norm_stmt(ag.node.body[-2])[:100],
               "Model.agent does not look the agent up by comparing ids / does not answer None for an unknown id",
               key="QUERY/Model.agent/shape")
@@ -345,6 +382,18 @@ def check_c14(idx: Index, tier: str, res: Result) -> None:
             incs = [n for n in ast.walk(lp) if isinstance(n, ast.AugAssign) and isinstance(n.op, ast.Add) and const_int(n.value) == 1]
             st = [n for n in ast.walk(lp) if isinstance(n, ast.Compare) and "state" in src(n)]
             ok = len(incs) == 1 and bool(st)
+    if not ok:
+        # sum(1 for id in ids if self.agent(id).state == state)  /  len([... for ... if ...])
+        env = _kind_env(cps.node)
+        for c in iter_calls(cps.node):
+            if call_name(c) in ("sum", "len") and c.args and isinstance(c.args[0], (ast.GeneratorExp, ast.ListComp)) and len(c.args[0].generators) == 1:
+                g = c.args[0].generators[0]
+                it = _deref(cps.node, g.iter)
+                over = _iter_kind(g.iter, env) == "id" or _iter_kind(it, env) == "id" or (isinstance(it, ast.Attribute) and it.attr == "agents") \
+                    or (isinstance(it, ast.Subscript) and (dotted(it.value) or "").endswith("agent_type_map"))
+                once = call_name(c) == "len" or const_int(c.args[0].elt) == 1
+                if over and once and any("state" in src(i) for i in g.ifs):
+                    ok = True
     res.check("QUERY", "agent_count_per_state counts matching agents once", ok, cps.loc(), cps.qual, "for ... += 1",
               "agent_count_per_state does not count one per agent of the type in the state", key="QUERY/Model.agent_count_per_state/shape")
 
@@ -777,7 +826,7 @@ def check_c12(idx: Index, tier: str, res: Result) -> None:
     fors = [n for n in walk_no_nested(run.node) if isinstance(n, ast.For)]
     if len(fors) != 2:
         raise AnalysisError("SimultaneousScheduler.run: expected two nested for loops, found %d" % len(fors))
-    outer, inner = sorted(fors, key=lambda n: n.lineno)
+    outer, inner = sorted(fors, key=seq)
     if not any(inner is x for x in ast.walk(outer)):
         raise AnalysisError("SimultaneousScheduler.run: loops are not nested")
     for lp in (outer, inner):
@@ -939,11 +988,11 @@ def check_c12(idx: Index, tier: str, res: Result) -> None:
     flow = Flow(cfg, [(frozenset(), (0, 0))], tr)
     preds = cfg.preds()
     for (p, lab) in preds[aiter_id]:
-        if p in [n.id for n in cfg.nodes] and cfg.nodes[p].lineno >= aloop.lineno and lab not in ("exc",):
+        if p in [n.id for n in cfg.nodes] and _nseq(cfg.nodes[p]) >= seq(aloop) and lab not in ("exc",):
             for f in flow.at[p]:
                 seen, per = tr(cfg.nodes[p], f, lab)[0]
-                if cfg.nodes[p].lineno > aloop.lineno or cfg.nodes[p].kind != "join":
-                    if per != (1, 1) and cfg.nodes[p].lineno > aloop.lineno:
+                if _nseq(cfg.nodes[p]) > seq(aloop) or cfg.nodes[p].kind != "join":
+                    if per != (1, 1) and _nseq(cfg.nodes[p]) > seq(aloop):
                         violations.setdefault("an iteration of the agent loop ends with handle_events x%d, act x%d" % per,
                                               (cfg.nodes[p], f))
     for f in flow.at[cfg.exit]:
@@ -1084,7 +1133,8 @@ def check_c13(idx: Index, tier: str, res: Result) -> None:
                  "FILL: fillna(0) on the frame path"]
     res.not_decided = ["numeric equality for populations (float summation order)", "pandas behaviour"]
     fi = idx.func(COLLECTOR, "DataCollector.collect_agent_statistics")
-    fn = fi.node
+    from ..util import expand_aliases
+    fn = expand_aliases(fi.node)            # access paths written out (row aliases, named values)
     ps = params(fn)
     tparam, aparam = ps[1], ps[2]
     loops = [n for n in walk_no_nested(fn) if isinstance(n, ast.For)]
@@ -1137,7 +1187,7 @@ def check_c13(idx: Index, tier: str, res: Result) -> None:
               norm_stmt(incs[0]) if incs else "", "the per-state count is not incremented by exactly one per agent",
               key="FOLD/count/increment")
     if incs:
-        res.check("FOLD", "count incremented outside the property loop", id(incs[0]) not in in_ploop and incs[0].lineno < ploop.lineno,
+        res.check("FOLD", "count incremented outside the property loop", id(incs[0]) not in in_ploop and seq(incs[0]) < seq(ploop),
                   where(incs[0]), fi.qual, norm_stmt(incs[0]),
                   "count is incremented inside (or after) the property loop: it counts properties, or the mean divides by a stale count",
                   key="FOLD/count/position")
@@ -1203,7 +1253,7 @@ def check_c13(idx: Index, tier: str, res: Result) -> None:
                   "the mean divides by %s, not by the count of the same (time, type, state) cell" % src(mean[0].value.right)[:80],
                   key="FOLD/mean/denominator")
         okm = True
-        res.check("FOLD", "mean computed after total and count were updated", bool(incs) and mean[0].lineno > tot[0].lineno and mean[0].lineno > incs[0].lineno,
+        res.check("FOLD", "mean computed after total and count were updated", bool(incs) and seq(mean[0]) > seq(tot[0]) and seq(mean[0]) > seq(incs[0]),
                   where(mean[0]), fi.qual, norm_stmt(mean[0])[:100], "the mean is computed before this agent's value/count went in",
                   key="FOLD/mean/order")
     if not okm:
@@ -1258,7 +1308,7 @@ def check_c13(idx: Index, tier: str, res: Result) -> None:
     # numeric filter and per-time reset
     tsets = [n for n in fn.body if isinstance(n, ast.Assign) and _chain(n.targets[0], aliases) == (ROOT, tparam)
              and isinstance(n.value, ast.Dict) and not n.value.keys]
-    res.check("FOLD", "statistics of a time are rebuilt from empty", len(tsets) == 1 and tsets[0].lineno < aloop.lineno, fi.loc(), fi.qual,
+    res.check("FOLD", "statistics of a time are rebuilt from empty", len(tsets) == 1 and seq(tsets[0]) < seq(aloop), fi.loc(), fi.qual,
               norm_stmt(tsets[0]) if tsets else "", "agent_statistics[time] is not reset before aggregating: a second collection doubles the numbers",
               key="FOLD/time-cell/reset")
 
@@ -1289,7 +1339,15 @@ def check_c13(idx: Index, tier: str, res: Result) -> None:
                             okc = "property_type" in src(n.value) or ('"%s"' % want) in src(n.value).replace("'", '"')
                             res.check("KEYS", "branch %s reads the %s column" % (want, want), okc, hr.loc(n), hr.qual, src(n.value)[-100:],
                                       "the '%s' aggregate is filled from a column of another type" % want, key="KEYS/run_scenario/%s-column" % want)
-    res.floor("aggregate branches in HybridRunner.run_scenario", nbr, 8)
+    # generic form: <cell>[property_type] = df[... + property_type] - key and column are the same variable
+    for n in ast.walk(hr.node):
+        if isinstance(n, ast.Assign) and isinstance(n.targets[0], ast.Subscript) and isinstance(n.targets[0].slice, ast.Name) \
+                and n.targets[0].slice.id == "property_type":
+            nbr += 1
+            res.check("KEYS", "aggregate stored under its own type and read from that type's column", "property_type" in src(n.value), hr.loc(n), hr.qual,
+                      norm_stmt(n)[-120:], "the aggregate stored under [property_type] is filled from %s, which does not depend on the type" % src(n.value)[-80:],
+                      key="KEYS/run_scenario/generic-column")
+    res.floor("aggregate stores in HybridRunner.run_scenario", nbr, 2)
     gdf = idx.func(HYBRID, "HybridRunner.get_df_for_agent")
     reads = [n for n in ast.walk(gdf.node) if isinstance(n, ast.Subscript) and src(n).startswith("states[column]")]
     okr = any(src(n) == "states[column][agent_property][property_type]" for n in reads) and any(
